@@ -172,6 +172,13 @@ def lits(cond, pol=True):
     if is_const(c):
         v = bool(c[2]) == pol
         return [] if v else [(FALSE, True)]
+    if h == "ite" and is_const(strip(c[2])) and isinstance(strip(c[2])[2], bool):
+        # (B if g else e):  B false -> (not g and e);  B true -> (g or e)
+        eq_ = ("and", (("un", "not", c[1]), c[3])) if not strip(c[2])[2] else ("or", (c[1], c[3]))
+        return lits(eq_, pol)
+    if h == "ite" and is_const(strip(c[3])) and isinstance(strip(c[3])[2], bool):
+        eq_ = ("and", (c[1], c[2])) if not strip(c[3])[2] else ("or", (("un", "not", c[1]), c[2]))
+        return lits(eq_, pol)
     return [(c, pol)]
 
 
@@ -962,6 +969,12 @@ class NN:
                 cur = strip(cur[2][1])
             elif is_call(cur, "builtins.list") and len(cur[2]) == 1:
                 cur = strip(cur[2][0])
+            elif is_call(cur, "itertools.takewhile") and len(cur[2]) == 2:
+                # a truncating scan: a filter that stops at the first rejected element
+                info["filters"].append(cur[2][0])
+                info.setdefault("takewhile", []).append((cur[2][0], len(info["order"])))
+                info["order"].append("takewhile")
+                cur = strip(cur[2][1])
             elif head(cur) == "mut" and cur[1] == "sort" and not cur[3]:
                 # lst.sort(key=..) : the in-place form of sorted (both are stable)
                 kw = dict(cur[4])
